@@ -29,9 +29,12 @@ type c10Reader struct {
 }
 
 type c10Case struct {
-	Proto    string      `json:"proto"`
-	Slots    []c04Slot   `json:"slots"`
-	Versions []int       `json:"versions"` // per key: number of versions its announcer publishes
+	Proto    string    `json:"proto"`
+	Slots    []c04Slot `json:"slots"`
+	Versions []int     `json:"versions"` // per key: number of versions its announcer publishes
+	// Opt[k]: key k's templates are options templates with 5 scope fields in front of the v version fields
+	// (decoders of one options template share its scope specifier slice)
+	Opt      []bool      `json:"opt,omitempty"`
 	AnnYield [][]int     `json:"ann_yield"`
 	Readers  []c10Reader `json:"readers"`
 	Dumpers  []int       `json:"dumpers"` // per dumper: number of dumps
@@ -39,7 +42,7 @@ type c10Case struct {
 }
 
 const c10Rule = "case = concurrency plan: protocol (ipfix | nf9), 2..6 (exporter,id) keys (disjoint, same-exporter, same-shard and full-hash-colliding pairs), one announcer goroutine per key publishing template versions 1..V " +
-	"(version v = v fields of element e_v), 1..6 reader goroutines (decode data for a key, peer Get, decode an unannounced key), 0..3 dumper goroutines calling Dump, drawn Gosched/sleep points; executed 1..3 rounds under the Go race detector; " +
+	"(version v = v fields of element e_v; a third of the keys use options templates with 5 scope fields of e_v in front), 1..6 reader goroutines (decode data for a key, peer Get, decode an unannounced key), 0..3 dumper goroutines calling Dump, drawn Gosched/sleep points; executed 1..3 rounds under the Go race detector; " +
 	"oracle = (1) no race report / fatal runtime error; (2) every lookup is 'unknown' (only if nothing had been announced for the key when it began) or one COMPLETE version v of exactly that key with " +
 	"done(k) at start <= v <= started(k) at end; (3) every dump file loads and holds only complete versions, each >= done(k) at dump start; " +
 	"non-trivial = the plan has >= 1 dumper and >= 1 reader on a key whose announcer publishes >= 2 versions (lookups and dumps overlap announcements); distinct by hash"
@@ -49,12 +52,30 @@ const c10MaxVersions = 12
 // 13 distinct unsigned32 IANA elements (index = version)
 var versionElems = []uint16{0, 10, 14, 16, 17, 18, 19, 20, 21, 22, 31, 34, 35}
 
-func versionTemplate(id uint16, v int) wire.Template {
+const c10ScopeFields = 5
+
+func versionTemplate(id uint16, v int, opt bool) wire.Template {
 	tp := wire.Template{ID: id}
+	if opt {
+		tp.Options = true
+		for i := 0; i < c10ScopeFields; i++ {
+			tp.Scope = append(tp.Scope, wire.Field{ID: versionElems[v], Len: 4, Type: wire.TUint32})
+		}
+	}
 	for i := 0; i < v; i++ {
 		tp.Fields = append(tp.Fields, wire.Field{ID: versionElems[v], Len: 4, Type: wire.TUint32})
 	}
 	return tp
+}
+
+func (c *c10Case) isOpt(k int) bool { return k < len(c.Opt) && c.Opt[k] }
+
+// fieldsOf returns the number of fields a record (or template) of version v of key k has.
+func (c *c10Case) extra(k int) int {
+	if c.isOpt(k) {
+		return c10ScopeFields
+	}
+	return 0
 }
 
 func genC10(t *rapid.T) c10Case {
@@ -97,7 +118,12 @@ func genC10(t *rapid.T) c10Case {
 		}
 	}
 	for range c.Slots {
+		opt := rapid.IntRange(0, 2).Draw(t, "optkey") == 0
+		c.Opt = append(c.Opt, opt)
 		nv := rapid.IntRange(1, c10MaxVersions).Draw(t, "nversions")
+		if opt && nv > 7 {
+			nv = 7 // a record of version v has (5+v)*4 octets and must fit the 48-octet probe
+		}
 		c.Versions = append(c.Versions, nv)
 		c.AnnYield = append(c.AnnYield, rapid.SliceOfN(rapid.IntRange(0, 2), nv, nv).Draw(t, "annyield"))
 	}
@@ -130,22 +156,23 @@ func yield(k int) {
 }
 
 // observedVersion extracts the version from a looked-up template; error when it is not a complete version of key id.
-func observedVersion(id uint16, n int, elem func(i int) uint16, declaredID, declaredCount int) (int, error) {
+func observedVersion(id uint16, n int, elem func(i int) uint16, declaredID, declaredCount, extra int) (int, error) {
 	if declaredID != int(id) {
 		return 0, fmt.Errorf("template id %d returned for id %d", declaredID, id)
 	}
-	if n < 1 || n > c10MaxVersions {
-		return 0, fmt.Errorf("template with %d fields is no announced version", n)
+	v := n - extra
+	if v < 1 || v > c10MaxVersions {
+		return 0, fmt.Errorf("template with %d fields (%d of them scope fields) is no announced version", n, extra)
 	}
 	if declaredCount >= 0 && declaredCount != n {
 		return 0, fmt.Errorf("torn template: FieldCount %d but %d field specifiers", declaredCount, n)
 	}
 	for i := 0; i < n; i++ {
-		if elem(i) != versionElems[n] {
-			return 0, fmt.Errorf("mixed template: field %d of a %d-field template is element %d, version %d uses element %d", i, n, elem(i), n, versionElems[n])
+		if elem(i) != versionElems[v] {
+			return 0, fmt.Errorf("mixed template: field %d of version %d is element %d, that version uses element %d", i, v, elem(i), versionElems[v])
 		}
 	}
-	return n, nil
+	return v, nil
 }
 
 func runC10(c *c10Case) (v verdict, sig string, err error) {
@@ -240,8 +267,12 @@ func c10Round(c *c10Case, dir string, round int) error {
 			<-start
 			sl := c.Slots[k]
 			for ver := 1; ver <= c.Versions[k]; ver++ {
-				tp := versionTemplate(sl.ID, ver)
-				m := wire.Msg{Proto: c.Proto, Seq: uint32(ver), Sets: []wire.Set{{Kind: "tpl", Tpls: []wire.Template{tp}}}}
+				tp := versionTemplate(sl.ID, ver, c.isOpt(k))
+				kind := "tpl"
+				if tp.Options {
+					kind = "opt"
+				}
+				m := wire.Msg{Proto: c.Proto, Seq: uint32(ver), Sets: []wire.Set{{Kind: kind, Tpls: []wire.Template{tp}}}}
 				atomic.StoreInt32(&started[k], int32(ver))
 				res, perr := cache.decodeFlow(wire.ExactIP(sl.Addr), m.Bytes())
 				if perr != nil || res.Nil || res.Err != nil {
@@ -305,18 +336,18 @@ func c10Round(c *c10Case, dir string, round int) error {
 						return
 					}
 					rec := res.Recs[0]
-					obs, e := observedVersion(sl.ID, len(rec), func(i int) uint16 { return rec[i].ID }, int(sl.ID), -1)
+					obs, e := observedVersion(sl.ID, len(rec), func(i int) uint16 { return rec[i].ID }, int(sl.ID), -1, c.extra(k))
 					if e != nil {
 						fail("decode of key %d used an incomplete template: %v", k, e)
 						return
 					}
 					for _, other := range res.Recs {
-						if len(other) != obs {
+						if len(other) != obs+c.extra(k) {
 							fail("decode of key %d: records of one set decoded with different templates", k)
 							return
 						}
 					}
-					if want := 48 / (4 * obs); len(res.Recs) != want {
+					if want := 48 / (4 * (obs + c.extra(k))); len(res.Recs) != want {
 						fail("decode of key %d with version %d: %d records, want %d", k, obs, len(res.Recs), want)
 						return
 					}
@@ -332,7 +363,12 @@ func c10Round(c *c10Case, dir string, round int) error {
 						checkRange("peer Get", k, lo, 0, true)
 						continue
 					}
-					obs, e := observedVersion(sl.ID, len(resp.FieldSpecifiers), func(i int) uint16 { return resp.FieldSpecifiers[i].ElementID }, int(resp.TemplateID), int(resp.FieldCount))
+					all := append(append([]ipfix.TemplateFieldSpecifier{}, resp.ScopeFieldSpecifiers...), resp.FieldSpecifiers...)
+					if len(resp.ScopeFieldSpecifiers) != c.extra(k) || int(resp.ScopeFieldCount) != c.extra(k) {
+						fail("peer Get of key %d returned a template with %d scope fields (count %d), announced %d", k, len(resp.ScopeFieldSpecifiers), resp.ScopeFieldCount, c.extra(k))
+						return
+					}
+					obs, e := observedVersion(sl.ID, len(all), func(i int) uint16 { return all[i].ElementID }, int(resp.TemplateID), int(resp.FieldCount), c.extra(k))
 					if e != nil {
 						fail("peer Get of key %d returned an incomplete template: %v", k, e)
 						return
@@ -431,7 +467,7 @@ func c10Round(c *c10Case, dir string, round int) error {
 				return fmt.Errorf("dump %s: key %d does not decode: %v", filepath.Base(d.file), k, res.Err)
 			}
 			rec := res.Recs[0]
-			obs, e := observedVersion(sl.ID, len(rec), func(i int) uint16 { return rec[i].ID }, int(sl.ID), -1)
+			obs, e := observedVersion(sl.ID, len(rec), func(i int) uint16 { return rec[i].ID }, int(sl.ID), -1, c.extra(k))
 			if e != nil {
 				return fmt.Errorf("dump holds an incomplete template for key %d: %v", k, e)
 			}
